@@ -31,6 +31,16 @@ pub fn run(ctx: &mut Ctx) {
         let conv = (round % 2) as u8;
         let mk = || CooklangParser::new(Extensions::from_bits_retain(ext_bits), if conv == 0 { Converter::empty() } else { Converter::bundled() });
         let inputs: Vec<String> = (0..per).map(|i| match i % 3 { 0 => crate::wf::spell(&crate::wf::generate(&mut rng, i % 2 == 0), &crate::wf::Style::plain()), 1 => crate::gen::recipe(&mut rng), _ => crate::gen::soup(&mut rng, 10) }).collect();
+        // inputs whose diagnostics are assembled from several map entries (an iteration order that leaks shows as
+        // reordered labels / diagnostics between two parses of the same text)
+        let mut inputs = inputs;
+        for s in [">> prep time: 5 min\n>> cook time: 10 min\n>> time: 20 min\n\nMix @a{}.\n", ">> time: 20 min\n>> prep time: 5 min\n>> cook time: 10 min\n",
+                  "---\nprep time: 5 min\ncook time: 10 min\ntime: 20 min\n---\nMix.\n", "---\ntime: 20 min\ncook time: 1h\nprep time: 5 min\nservings: a few\ntags: [a, b]\nlocale: zz_\n---\nMix.\n",
+                  ">> servings: x\n>> time: y\n>> locale: zzz\n>> prep time: z\n>> cook time: w\n>> author: <>\n>> source: <>\n",
+                  ">> a: 1\n>> b: 2\n>> c: 3\n>> d: 4\n>> e: 5\n>> f: 6\n>> g: 7\n>> h: 8\n>> i: 9\n",
+                  "@x{1%kg} then @&x{500%ml} and @&x{some} and @&x{1%lb} and @y{1%l} then @&y{2%kg}", "@a{1%l} @&a{1%kg} @&a{1%cup} @&a{1%g} @&a{2} @&a{x}"] {
+            inputs.push(s.to_string());
+        }
         // (a) fresh parser per input (+ model)
         let fresh: Vec<String> = inputs.iter().map(|s| image(&mk(), s)).collect();
         for (s, img) in inputs.iter().zip(fresh.iter()) {
